@@ -164,6 +164,33 @@ def run(ctx):
             if sfx2 != sfx and (not quick or rng.random() < 0.35):
                 add("mis" + sfx2, data, "valid-%s-as-%s" % (kind, sfx2 or "none"), "misnamed", with_co=rng.random() < 0.5)
 
+    # text content: for every datetime pattern row of the regenerated table, lines sampled from the
+    # row's own regular expression (so every alternative the expression admits - month spellings,
+    # zone forms, single-digit fields - reaches the normalisation code), plus the corpus of witnesses
+    dtj = os.path.join(vlib.COQ, "Gen", "datetime_tables.json")
+    n_text = 0
+    if os.path.exists(dtj):
+        import regex_sample
+        rows = json.load(open(dtj))["rows"]
+        per_row = 2 if quick else 12
+        for r in rows:
+            for rep in range(per_row):
+                lines = []
+                for k in range(8):
+                    try:
+                        smp = regex_sample.sample(r["regex"], rng)
+                    except Exception:
+                        smp = ""
+                    pad = " " * r["start"] if r["start"] and not smp.startswith(" ") else ""
+                    lines.append(pad + smp + " sampled line %d\n" % k)
+                add("row%03d_%d.log" % (r["index"], rep), "".join(lines).encode("utf-8", "replace"), "regex-row-%d" % r["index"], "text-sampled", with_co=rng.random() < 0.3)
+                n_text += 1
+    cdir = os.path.join(vlib.ROOT, "corpus", "C07", "texts")
+    if os.path.isdir(cdir):
+        for n in sorted(os.listdir(cdir)):
+            add(n, read(os.path.join(cdir, n)), "corpus-" + n, "text-corpus", with_co=False)
+            add(n, read(os.path.join(cdir, n)), "corpus-" + n, "text-corpus", with_co=True)
+
     with ThreadPoolExecutor(max_workers=vlib.NCPU) as ex:
         results = list(ex.map(one, jobs))
 
@@ -197,7 +224,9 @@ def run(ctx):
         if m["co"]:
             # the co-sources' lines, in order, must be exactly their solo output
             want = solo[m["co"]]
-            got = b"".join(l for l in out.splitlines(keepends=True) if b" co" in l and b" message " in l and b"padding text" in l)
+            # (a printed accounting record is followed by a stray NUL byte - C08 finding - which would
+            #  otherwise glue itself to the following co-source line)
+            got = b"".join(l for l in out.replace(b"\0", b"").splitlines(keepends=True) if l.startswith(b"2022-05-") and b" co" in l and b" message " in l and b"padding text" in l)
             if got != want:
                 ctx.failure(case, "co-sources print as in their solo run (%d bytes)" % len(want),
                             "co-source lines differ (%d bytes)" % len(got))
@@ -205,7 +234,7 @@ def run(ctx):
     distinct = len(set((m["kind"], m["label"], m["co"], m["pos"]) for m in meta))
     ctx.coverage.update(
         evaluations=len(jobs), distinct_nontrivial=distinct,
-        rule="fault enumeration on the hooked release-like s4 binary: for each valid base file (text, gz, bz2, xz, tar, utmp(+gz,lz4), evtx(+gz), journal(+gz,lz4)) truncation at offset classes (all offsets for small files), 1-16 byte corruptions in magic/header/trailer/payload, zeroed/0xFF header, doubled, junk appended; random byte strings of assorted lengths under every recognised suffix; valid content under every mismatching suffix; about half of the runs beside 1-3 valid text sources at a random argument position; every case is a damaged or mis-typed input, distinct by (kind, mutation, co-sources, position)",
+        rule="fault enumeration on the hooked release-like s4 binary: for each valid base file (text, gz, bz2, xz, tar, utmp(+gz,lz4), evtx(+gz), journal(+gz,lz4)) truncation at offset classes (all offsets for small files), 1-16 byte corruptions in magic/header/trailer/payload, zeroed/0xFF header, doubled, junk appended; random byte strings of assorted lengths under every recognised suffix; valid content under every mismatching suffix; text files of lines sampled from each datetime pattern row's own regular expression (all 173 rows) and corpus witnesses; about half of the runs beside 1-3 valid text sources at a random argument position; every case is a damaged or mis-typed input, distinct by (kind, mutation, co-sources, position)",
         samples=[dict(meta[i], rc=results[i][0]) for i in (0, len(meta) // 3, len(meta) // 2, len(meta) - 1)],
         by_kind=hist, failures=bad, bound_s=BOUND,
         exit_status_histogram={str(k): sum(1 for r in results if r[0] == k) for k in sorted(set(r[0] for r in results))})
